@@ -21,7 +21,7 @@ ASSUMPTIONS = ["vf/refdim.py rules define the reference inference (property stat
 N = {"quick": dict(trees=3200, depth=4), "thorough": dict(trees=40000, depth=6)}
 SHARD_TIMEOUT = {"quick": 300, "thorough": 2400}
 MIN_REACH = {"quick": {"native_unit_or_wrapper_leaf": 300, "dimension_compared": 1200, "error_both": 150, "value_compared": 1000, "diagram_compared": 400,
-                       "zero_quantity_in_sum_or_minmax": 40, "derivative": 50},
+                       "zero_quantity_in_sum_or_minmax": 40, "derivative": 50, "nan_term_in_sum": 10, "derivative_wrt_function_or_derivative": 10},
              "thorough": {"dimension_compared": 15000, "error_both": 2000, "value_compared": 12000, "diagram_compared": 5000}}
 
 
@@ -68,6 +68,8 @@ class Gen:
         # infinite terms: only as direct terms of the outermost sum/min/max (nested, SymPy's evalf collapses x + oo and the
         # library's is_number() then sees a 'number'; such inputs are outside what the statement describes)
         self.inf_qs = [q_of(r.choice(self.dims), sympy.oo)]
+        # NaN-valued quantities (a missing measurement, oo - oo): the third kind of term the statement exempts
+        self.nan_qs = [Quantity(sympy.nan, dimension=r.choice(self.dims)), Quantity(float("nan"), dimension=units.length)]
 
     def leaf(self):
         r, sp = self.r, self.sp
@@ -84,7 +86,7 @@ class Gen:
             return sp.Integer(r.choice([0, 1, 2, -1, 3])) if r.random() < 0.7 else r.choice([sp.Rational(1, 2), sp.Float(1.5), sp.Rational(-2, 3), 5, 7])
         return r.choice(self.funs)(r.choice(self.syms))
 
-    def same_dim_args(self, d, n, top=False):
+    def same_dim_args(self, d, n, top=False, nan_ok=False):
         a = self.gen(d - 1)
         out = [a]
         for _ in range(n - 1):
@@ -97,7 +99,8 @@ class Gen:
             elif k < 0.80 and k >= 0.76:
                 out.append(self.r.choice([self.sp.Integer(0), self.sp.Float(0.0)]))  # literal zero: any dimension
             elif k < 0.76 and top:
-                out.append(self.r.choice([self.sp.oo, self.inf_qs[0], -self.sp.oo]))
+                # (NaN only in sums: SymPy itself refuses Max(nan, x) as 'not comparable')
+                out.append(self.r.choice([self.sp.oo, self.inf_qs[0], -self.sp.oo] + (self.nan_qs if nan_ok else [])))
             else:
                 out.append(self.gen(d - 1))
         self.r.shuffle(out)
@@ -117,7 +120,7 @@ class Gen:
         if k < 0.37:
             return self.gen(d - 1) / self.nz(self.gen(d - 1))
         if k < 0.57:
-            return sp.Add(*self.same_dim_args(d, r.choice([2, 2, 3]), top))
+            return sp.Add(*self.same_dim_args(d, r.choice([2, 2, 3]), top, nan_ok=True))
         if k < 0.69:
             ex = r.choice([2, -1, sp.Rational(1, 2), 3, sp.Rational(-3, 2), self.leaf()])
             return self.gen(d - 1) ** ex
@@ -136,6 +139,12 @@ class Gen:
                 inner = inner * r.choice(self.qs)
             elif k2 < 0.45:
                 inner = inner + f(x) ** 2 / f(x)
+            k3 = r.random()
+            if k3 < 0.2:      # with respect to an applied function (Euler-Lagrange style dL/dx(t)) ...
+                return sp.Derivative(r.choice(self.syms[1:]) * f(x) ** 2 + inner, f(x))
+            if k3 < 0.3:      # ... or to a derivative (dL/dv with v = dx/dt)
+                v = sp.Derivative(f(x), x)
+                return sp.Derivative(r.choice(self.syms[1:]) * v ** 2 / 2, v)
             return sp.Derivative(inner, (x, r.choice([1, 2])))
         return r.choice([sp.sin, sp.exp, sp.cos, sp.log])(self.gen(d - 1) / self.nz(self.gen(d - 1)))
 
@@ -166,9 +175,14 @@ def check_tree(e, g, rec, origin, r):
                 if bv.is_zero:   # 0**negative, 0**f(x): value undefined or not determined
                     rec.add("skipped_undefined_value")
                     return
-        if e.xreplace(qsub).has(sympy.zoo, sympy.nan):
+        # (a NaN-valued quantity as a direct term of a sum/min/max is the exempted term of the statement, not an accident)
+        direct_nan = {a for n_ in sympy.preorder_traversal(e) if isinstance(n_, sympy.Add) for a in n_.args
+                      if isinstance(a, SymQuantity) and sympy.sympify(a.scale_factor) is sympy.nan}
+        if e.xreplace({q: v for q, v in qsub.items() if q not in direct_nan}).has(sympy.zoo, sympy.nan):
             rec.add("skipped_undefined_value")
             return
+        if direct_nan:
+            rec.hit("nan_term_in_sum")
     except Exception:  # pylint: disable=broad-except
         # SymPy itself refuses to evaluate the tree with the quantities replaced by their values (zoo in Min/Max, ...)
         rec.add("skipped_undefined_value")
@@ -208,6 +222,8 @@ def check_tree(e, g, rec, origin, r):
         rec.hit("zero_quantity_in_sum_or_minmax")
     if e.has(sympy.Derivative):
         rec.hit("derivative")
+        if any(not isinstance(v, sympy.Symbol) for dnode in e.atoms(sympy.Derivative) for v in dnode.variables):
+            rec.hit("derivative_wrt_function_or_derivative")
     if any(a in g.native for a in e.atoms(SymQuantity)) or any(a in g.wrappers for a in e.atoms(sympy.Symbol)):
         rec.hit("native_unit_or_wrapper_leaf")
     if rd is None and le is None:
